@@ -78,7 +78,16 @@ Stm(d, inLoop, id) ==
         \* (the run-once loop only below the root of the deepest bound: the enumeration of depth 3 is kept affordable)
         \cup (IF d <= 2 THEN UNION {{LoopOnceOf(q, id)} : q \in Pairs(d, TRUE, id)} ELSE {}))
 
-Bodies == Stm(D, FALSE, 1)
+\* depth 3 is sampled BELOW the root (every SampleMod-th body of depth 2 in each sub-position) instead of building the
+\* whole depth-3 set first and sampling it afterwards: the complete set has some 200 000 deep records, which costs TLC an
+\* hour to normalise; the sampled one is built in seconds
+Samp(st) == LET q == SetToSeq(st) IN {q[i] : i \in {j \in 1..Len(q) : j % SampleMod = 0}}
+SamplePairs(inLoop) ==
+  {<<a, b>> : a \in Samp(Stm(2, inLoop, 5)), b \in Small(6)} \cup {<<a, b>> : a \in Small(5), b \in Samp(Stm(2, inLoop, 6))}
+Bodies == IF D = 3
+          THEN UNION {{IfEq(p), IfSetInt(p), MatchX(p, 1), BlockOf(p), ModOf(p)} : p \in SamplePairs(FALSE)}
+               \cup UNION {{LoopOf(q, 1), WhileOf(q, 1), ForOf(q, 1), WhileSetOf(q, 1)} : q \in SamplePairs(TRUE)}
+          ELSE Stm(D, FALSE, 1)
 
 Prog(body) ==
   <<FnDecl("g", <<P("x", XTy)>>, WInt, <<body, Mark(999), Ret(I(0))>>),
@@ -90,7 +99,8 @@ Prog(body) ==
 
 \* keep every SampleMod-th body (1 = all) so that deeper suites stay affordable
 BodySeq == LET all == SetToSeq(Bodies) IN
-           SelectSeq([i \in 1..Len(all) |-> IF i % SampleMod = 0 THEN all[i] ELSE NoneV], LAMBDA b : b # NoneV)
+           IF D = 3 THEN all
+           ELSE SelectSeq([i \in 1..Len(all) |-> IF i % SampleMod = 0 THEN all[i] ELSE NoneV], LAMBDA b : b # NoneV)
 N == Len(BodySeq)
 Fuel == 5000
 Out(i) == Outcome(Run(Prog(BodySeq[i]), Fuel))
